@@ -781,10 +781,18 @@ def run(chk: lib.Check):
         "(each of %d pieces incl. whitespace-only, CR/LF/TAB, non-BMP, ]]>, entity look-alikes); 1-3 save-edit-save rounds; after each "
         "save a fresh MelodyModel is loaded and every primary fragment is compared with the in-memory tree (before and after save) by a "
         "raw-lxml snapshot: tags, attributes, text, tails, child order, declared prefixes of xsi:type values, comments around the root; "
-        "update_namespaces inputs/outputs of every save are replayed on the Coq model" % len(PIECES))
+        "update_namespaces inputs/outputs of every save are replayed on the Coq model. Operations on the other files of the primary resource: "
+        "activate_viewpoint (known and arbitrary names/versions; repeated = no-op, other version = refused) -> .afm; diagram name / "
+        "description / filters add+discard -> .aird. The set of files of the primary resource (semantic, visual, metadata: "
+        "coverage.histories.files_compared) must be the same after reload and each is compared; referenced_viewpoints()/info.viewpoints of "
+        "the reloaded model = raw scan of the in-memory .afm. Extremes stream (coverage.histories.extremes = deepest XML level / longest value "
+        "reached): chains of 258..900 creations inside one another (functions, components, packages, two layers) and single values of "
+        "more than 10,000,000 characters in an attribute and in element text must save and reload equal, under the interpreter's default "
+        "recursion limit. Comparison is modulo formatting whitespace (blank tails, blank text in front of a first child)" % len(PIECES))
     chk.assumptions += [
         "save() writes the primary resource only: histories edit objects of the primary resource; an edit to an object of a referenced library is accepted by the API and silently not persisted (observed on 'Library Project', by design of MelodyLoader.save)",
         "lxml's parser is represented by the reference reader (sampled in C01); the API-level claim 'edits keep trees inside the writer's domain' is checked by the differential run only",
+        "libxml2 drops blank runs under remove_blank_text only below its 300-character buffer: below ~150 levels the indentation written by save() is reloaded as whitespace tails (memory has None); the writer ignores blank tails and a reloaded deep model saves byte-identically (measured at 320..950 levels), so blank tails/pre-child text are not counted as information. Somewhere between 950 and 1500 levels save() ends in RecursionError under the interpreter's default recursion limit (the writer recurses per level): the extremes stream stays below 900",
         "a history in which the API refused an operation and whose mismatch disappears without that operation is not counted (partial state after a refused edit is C04/C09's subject)",
     ]
 
